@@ -426,6 +426,14 @@ func dbCell(f *FDesc, x interface{}) Val {
 			return vStr(js)
 		}
 	}
+	if f.Kind.K == "ser" && f.Kind.Ser == "json" {
+		// a JSON number / boolean in a column with INTEGER / REAL / NUMERIC affinity is handed back
+		// as a number: shown as its JSON text
+		switch x.(type) {
+		case int64, float64, bool:
+			return vStr(canonJSON(x))
+		}
+	}
 	return canonDyn(x)
 }
 
